@@ -406,9 +406,14 @@ type c04State struct {
 	// Schedule: "cheater-last" (an envelope of the cheater is delivered only when no honest envelope is in flight: every
 	// honest signer has processed the other honest signers' messages of a round before the cheater's) or "fifo"
 	Schedule string `json:"schedule"`
+	// MsgLen: length of the message digest the session signs (0 = the fixed 32-byte digest c03Msg), see c04_msglen.go
+	MsgLen int `json:"msg_len,omitempty"`
 }
 
 func (st c04State) key() string {
+	if st.MsgLen != 0 {
+		return fmt.Sprintf("C04/cmp-presign-%s/state-%s/msg-len=%d", st.Variant, st.Deviation, st.MsgLen)
+	}
 	return fmt.Sprintf("C04/cmp-presign-%s/state-%s", st.Variant, st.Deviation)
 }
 
@@ -429,6 +434,9 @@ func c04RunPresignState(m *c03Mat, st c04State) (out *c04StateOut) {
 			out.Note = fmt.Sprint("harness panic: ", r)
 		}
 	}()
+	if st.MsgLen != 0 {
+		m = m.withMsg(c04MsgOfLen(st.MsgLen))
+	}
 	base := c03ProtoCMPPresign(m, st.Variant)
 	rule := c04PresignRules()[st.Deviation]
 	if rule == nil {
@@ -660,6 +668,7 @@ func runC04(c *ctx) {
 				}
 			}
 		}
+		sts = append(sts, c04MsgLenStates(c, m)...)
 		// the state-level runs proceed in the background while the catalogue below is swept (both are pure functions of
 		// their case descriptions; judging happens afterwards on this goroutine, in case order)
 		t0 := time.Now()
@@ -729,6 +738,7 @@ func runC04(c *ctx) {
 	judge := func(p *c03Proto, out *c03Outcome) { c04Judge(c, p, out) }
 	c03Sweep(c, m, avail, planOf, judge)
 	c03DealExtra(c, "C04", judge)
+	c04MsgLenSweep(c, m, judge)
 }
 
 func c04ParallelDo(n int, f func(i int)) {
@@ -786,6 +796,9 @@ func (c *ctx) c04Replay() {
 		}
 		if cs.Proto == "cmp-sign" && len(cs.Parties) > 0 {
 			m.signers = idsOf(cs.Parties...)
+		}
+		if cs.MsgLen != 0 {
+			m = m.withMsg(c04MsgOfLen(cs.MsgLen))
 		}
 		if p := c03ProtoForCase(m, cs); p != nil && len(m.errs) == 0 {
 			c04Judge(c, p, c03Run(p, cs))
